@@ -896,7 +896,7 @@ func c16R9(p *core.Program, r *core.Report) {
 				"the "+strings.TrimPrefix(ctor, "new")+" UUID passed to "+ctor+" in "+cs.Caller.Name()+" is "+map[bool]string{true: "generated by " + generated, false: "not loaded from the legacy definition"}[generated != ""]+": paths recorded against the legacy flow no longer match the migrated one, and migrating twice gives different flows")
 		}
 	}
-	r.Require("legacy_node_exit_constructions", n, 4)
+	r.Require("legacy_node_exit_constructions", n, 2)
 }
 
 // ---------------------------------------------------------------------------------------------- R10 legacy writer vs action reader
@@ -1266,7 +1266,7 @@ func c16R12(p *core.Program, r *core.Report, fns []*ssa.Function) {
 			r.Check(bad == "", "R12", key, p.Pos(cs.Pos()), fmt.Sprintf("%d length guard(s), each on the truncated value with a bound <= %d", guards, N), bad+" — the migrated definition then fails validation at the current version")
 		}
 	}
-	r.Require("truncation_sites", n, 4)
+	r.Require("truncation_sites", n, 2)
 }
 
 // ---------------------------------------------------------------------------------------------- R13
